@@ -1268,11 +1268,20 @@ void BSSubIndexTriShape::notifyVerticesDelete(const std::vector<uint16_t>& vertI
 	// Align segments
 	size_t i = 0;
 	for (auto& segment : segmentation.segments) {
+		// Triangles assigned to the segment itself precede those of its sub segments
+		uint32_t numSubPrimitives = 0;
+		for (auto& subSegment : segment.subSegments)
+			numSubPrimitives += subSegment.numPrimitives;
+
+		uint32_t numOwnPrimitives = 0;
+		if (segment.numPrimitives > numSubPrimitives)
+			numOwnPrimitives = segment.numPrimitives - numSubPrimitives;
+
 		// Align sub segments
 		size_t j = 0;
 		for (auto& subSegment : segment.subSegments) {
 			if (j == 0)
-				subSegment.startIndex = segment.startIndex;
+				subSegment.startIndex = segment.startIndex + numOwnPrimitives * 3;
 
 			if (j + 1 >= segment.numSubSegments)
 				continue;
